@@ -352,6 +352,9 @@ func driverMain() {
 		fatalInfra("no engine registered for property %q", prop)
 	}
 	d.eng = e
+	if e.Custom != nil {
+		os.Exit(e.Custom(d))
+	}
 	os.Exit(d.check())
 }
 
@@ -720,7 +723,7 @@ func (d *driver) replayFile(path string) int {
 		}
 	}
 	d.prop = rf.Property
-	if e := engines[rf.Property]; e != nil && e.AuxReplay != nil && (strings.HasSuffix(rf.Engine, "/wasm") || strings.HasSuffix(rf.Engine, "/race-detector")) {
+	if e := engines[rf.Property]; e != nil && e.AuxReplay != nil && (strings.HasSuffix(rf.Engine, "/wasm") || strings.HasSuffix(rf.Engine, "/race-detector") || rf.Engine == "deviants") {
 		return e.AuxReplay(d, &rf, path)
 	}
 	req := &Request{Kind: "replay", Prop: rf.Property, Tier: rf.Tier, Choices: rf.Choices, Keep: true, Active: d.active, Trial: rf.Trial, Seed: rf.TrialSeed}
